@@ -114,6 +114,15 @@ CHECKS = {
         "progs", "2/C39"),
 }
 
+CHECKS.update({
+    "C03": (
+        "enumerated (arity <= 3) and Hypothesis-drawn (arity <= 6) operator applications; four-way differential: compiled macro form, hy.pyops function, CPython evaluating the documented expansion text, macro forms with #*; augmented assignment against Python's own op= over the documented aggregator",
+        "All 25 operators at every allowed arity: arity <= 2 over a 36-value pool exhaustively, arity 3 over a reduced pool (full pool in thorough), "
+        "arities 4..6, operand aliasing, #* split points and op= on name/subscript/attribute targets sampled. Agreement on (type, repr) or exception type.",
+        "CPython is the reference for the documented Python expansion; the nullary/unary/aggregator table is transcribed from the pyops docstrings and cross-checked against them each run.",
+        "operators", "2/C03"),
+})
+
 LEVELS = {"C09": "fault_enumeration"}
 
 NOT_YET = "check not built yet (planned in DESIGN.md section 2); not claimed"
@@ -162,6 +171,8 @@ def main():
              "kind_free_text": "code-point enumeration and Hypothesis name strategy"},
             {"name": "textgen", "path": "vf/textgen.py", "serves_properties": ["C18", "C19", "C20", "C21", "C30"],
              "kind_free_text": "Engine B: Hypothesis-drawn syntax trees rendered to Hy text with independently built expected models, spans and open-construct intervals"},
+            {"name": "operators", "path": "vf/props/c03.py", "serves_properties": ["C03"],
+             "kind_free_text": "operator/arity/operand-vector enumeration and strategy with CPython as evaluator of the documented expansion"},
             {"name": "literals", "path": "vf/props/c22.py", "serves_properties": ["C22", "C23", "C24"],
              "kind_free_text": "per-module structural generators of literal texts (vf/props/c22.py, c23.py, c24.py) with CPython as the reference evaluator"},
         ],
